@@ -126,6 +126,7 @@ class Tools:
             r['mc_ret'], r['mc_args'] = kv['ret'], kv['args'].split(';')
             kv = dict(x.split('=') for x in ms.split())
             r['ms_ret'], r['ms_args'] = kv['ret'], kv['args'].split(';')
+            r['wf'] = kv.get('wf')
             res.append(r)
         return res
 
@@ -348,6 +349,9 @@ def classify_part(chk, tools, decls, label):
         v = kverdict(t, r)
         chk.count('K ' + G.ty_text(t), nontrivial=G.size_of(t) >= 3)
         chk.dist('classify_verdicts', v)
+        chk.dist('in_classification_quantifier(wf_ty)', r['wf'])
+        if r['wf'] != '1':
+            NOT_WF.append(G.ty_text(t))
         chk.dist('arg_class(gcc)', (r['gcc_arg'] or '?').upper())
         chk.dist('ret_class(gcc)', (r['gcc_ret'] or '?').upper())
         if v not in ('ok', 'padding-eightbyte', 'gcc-union-unnamed-bf'):
